@@ -39,6 +39,12 @@ func TestC09(t *testing.T) {
 					default:
 						ops = append(ops, a)
 					}
+					// the plain type that was refused under lock (after a refused relation type)
+					for _, x := range lo.Sub[1:] {
+						if x.K == core.OpRegisterNew && x.V == 0 {
+							ops = append(ops, x)
+						}
+					}
 				}
 				return ops
 			}
